@@ -1,5 +1,6 @@
 import BevySyncModel.Proofs.Ent
 import BevySyncModel.Generated.Filter
+import BevySyncModel.Generated.Ent
 /-! # C01 — every peer converges to the same set of synchronized entities
 
 One uuid per slice (`Slice/Ent.lean`): the uuid is drawn once by `created` on the origin and no action
@@ -12,6 +13,14 @@ open Ent
 
 /-- (tie) creation reacts to `Added<SyncMark>` only (regenerated from both `track.rs`) -/
 theorem C01_created_tie : Generated.createdOnlyOnSyncMark = true := by decide
+
+/-- (tie) regenerated from both `receiver.rs` / `track.rs`: an `EntityDelete` despawns the named entity only (no
+recursion into its children) and forgets both of its map entries; the client's `EntitySpawn` handler has the duplicate
+guard and both handlers fill both maps at once; the host relays both messages at once to everybody but the sender;
+`entity_removed_*` announces exactly the tracked uuids whose entity no longer answers the query -/
+theorem C01_handlers_tie :
+    Generated.entDeleteHandlersNamedEntityOnly = true ∧ Generated.entSpawnHandlers = true ∧
+    Generated.entRemovedDetectors = true := by decide
 
 /-- **C01, entity marked on the host** — before or after any client connected (a client that is not yet
 in `clients` simply is not there; joining later is C03): for every number of clients, every interleaving
